@@ -16,6 +16,7 @@ UNITS = {
   'agg3':   dict(LCS, wrapper='w_agg.cpp', unroll=2, threads=thr('vp_thr_agg1', 3)),
   'agg3x2': dict(LCS, wrapper='w_agg.cpp', unroll=2, threads=thr('vp_thr_agg2', 3)),
   # sequential: one batch / one heap kernel from an arbitrary valid state
+  'exc':    dict(wrapper='w_exc.cpp', mode='seq', exceptions=True, ptratomics=True, prune=True),
   'batch':  dict(wrapper='w_batch.cpp', mode='seq', selftest=True, ptratomics=True),
 }
 def batches(kinds, maxlen):
@@ -65,4 +66,23 @@ HARNESSES = [
        scenarios=[{'K0': 0, 'K1': 1, 'K2': 1, 'N0': 1}, {'K0': 1, 'K1': 0, 'K2': 0, 'N0': 1}, {'K0': 0, 'K1': 0, 'K2': 1, 'N0': 0}, {'K0': 1, 'K1': 1, 'K2': 1, 'N0': 2}],
        desc='full real code, 3 threads x 1 operation', bounds={'threads': 3, 'ops_per_thread': 1, 'free_rounds': 1, 'forced_rounds': 2, 'loop_unroll': 1, 'priorities': '3 values'}),
 ]
-OUTSIDE = []; STUBS = []; ASSUMPTIONS = []
+OUTSIDE = [
+  'more than 3 threads; more than 1 operation per thread through the full queue code (2 per thread only in the protocol harness agg_*)',
+  'schedules with more scheduling rounds than stated per harness; at loop unroll 1 (quick lin_2t) a context switch after the second iteration of a list loop is only reached in the forced rounds',
+  'std::vector reallocation inside a concurrent operation (queue is constructed with capacity 8; _M_realloc_insert is cut out of the thread bodies and asserted unreachable; growth is exercised sequentially by the selftest differential only)',
+  'element types other than int, user comparators, emplace, the throwing copy/move part of the property (exceptions compiled out: TBB_USE_EXCEPTIONS=0)',
+  'batches of more than 3 operations in the sequential lemma; heaps of more than 7 elements in the kernel lemmas',
+  'non-SC memory models (the release/acquire pairs on status and handler_busy are taken at sequentially consistent strength)',
+  'unsafe (non-concurrent) members: clear, swap, assign, copy/move construction',
+]
+STUBS = [
+  'r1::cache_aligned_allocate/deallocate: fresh 128-byte aligned block from a typed static pool per call, never reused',
+  'r1::cache_line_size: 128', 'r1::throw_exception, std::__throw_length_error: reaching them is a failure (nothing can throw in this build)',
+  'sched_yield / pause: scheduling hints (no-op)',
+  'agg_* only: client handler of the aggregator (w_agg.cpp) = the documented handler contract (walk the list, set every status non-zero), reports through observers',
+]
+ASSUMPTIONS = [
+  'every batch starts from mark == data.size() == my_size with data[0,mark) a max-heap: established by the constructor, assumed as pre-state of batch_step and re-proved as its post-state (inductive invariant)',
+  'reserved capacity is not exceeded (capacity 8 >= initial + pushed elements in every thread scenario)',
+  'linearizability is judged on timestamps taken in the atomic observer steps directly before the call / after the return of each operation',
+]
